@@ -93,8 +93,8 @@ fn nz(n: &Option<u32>) -> u32 {
     }
 }
 
-fn blank_row(s: &Snap) -> Vec<Cell> {
-    vec![s.default_cell(); s.columns as usize]
+fn blank_row(s: &Snap) -> Row {
+    Row::new(vec![s.default_cell(); s.columns as usize])
 }
 
 // ------------------------------------------------------------------------------------------
@@ -247,7 +247,7 @@ pub fn fresh(columns: u32, lines: u32) -> Snap {
     Snap {
         lines,
         columns,
-        grid: vec![vec![d; columns as usize]; lines as usize],
+        grid: vec![Row::new(vec![d; columns as usize]); lines as usize],
         cx: 0,
         cy: 0,
         cattr: Attr::default_with(false),
@@ -274,7 +274,7 @@ fn r_regrid(s: &mut Snap, nl: u32, nc: u32) {
         s.grid.drain(0..drop);
     }
     while (s.grid.len() as u32) < nl {
-        s.grid.push(vec![d.clone(); s.columns as usize]);
+        s.grid.push(Row::new(vec![d.clone(); s.columns as usize]));
     }
     for row in s.grid.iter_mut() {
         row.resize(nc as usize, d.clone());
@@ -521,7 +521,7 @@ pub fn expect(call: &Call, pre: &Snap) -> Vec<Exp> {
             if top <= y && y <= bot {
                 let k = nz(n).min(bot - y + 1);
                 let blank = blank_row(pre);
-                let span: Vec<Vec<Cell>> = (y..=bot).map(|r| pre.grid[r as usize].clone()).collect();
+                let span: Vec<Row> = (y..=bot).map(|r| pre.grid[r as usize].clone()).collect();
                 let len = span.len();
                 for i in 0..len {
                     let row = if matches!(call, InsertLines(_)) {
